@@ -79,6 +79,21 @@ func paramsMentioned(c *core.Ctx, e ast.Node, depth int, seen map[types.Object]b
 			if rs, ok := d.Stmt.(*ast.RangeStmt); ok {
 				paramsMentioned(c, rs.X, depth-1, seen, out)
 			}
+			// a component that is built under a condition (e.g. a bitmask whose bits are set
+			// when a predicate of the input holds) is a function of that condition's inputs
+			// (only for accumulating updates `x op= …`, not for plain assignments)
+			as, isAs := d.Stmt.(*ast.AssignStmt)
+			if !isAs || as.Tok == token.ASSIGN || as.Tok == token.DEFINE {
+				continue
+			}
+			for p := c.W.Parent(d.Stmt); p != nil; p = c.W.Parent(p) {
+				if ifs, ok := p.(*ast.IfStmt); ok {
+					paramsMentioned(c, ifs.Cond, depth-1, seen, out)
+				}
+				if _, isFn := p.(*ast.FuncDecl); isFn {
+					break
+				}
+			}
 		}
 		return true
 	})
@@ -244,7 +259,6 @@ func init() {
 		Explanation: "Decides R19a-R19d: for every memo cache in the address stack, every parameter the memoised function reads is part of the cache key and the cached value is computed without the runtime-mutable crypto context; " +
 			"the address validity and address-type lookups do not depend on map iteration order; dapp.CheckAddress consults the validity check with its own height; LoadDriver keeps live, height-controlled rejections.",
 		NotCovered: "hash-collision behaviour of the caches and the validators' own string parsing (V).",
-		Hold:       "rules R19a/R19b fire on address.CheckAddress (cache keyed by addr only, map-order dependent error) and eth.PubKeyToAddr (cached value depends on the crypto context); reproduction and fix in progress",
 		Rules: []core.Rule{
 			rule("R19a", "memo-key completeness", 8, func(r *Run) {
 				ctx := []string{"common/crypto/client.GetCryptoContext"}
